@@ -66,6 +66,8 @@ def _zero_fact(f, T):
 
 def check(col, prog, tier, profile, fixture=None):
     crate = prog.crate(fixture or "rlib_gcd")
+    free = [f for f in crate.bodies if not f.is_closure and f.kind == "Fn" and f.container is None and f.vis != "pub" and not util.self_recursive(f)]
+    Af = util.analyser(free)
     fk = util.fkey
     gcd = util.need_body(crate, "gcd")
     lcm = util.need_body(crate, "lcm")
@@ -76,7 +78,7 @@ def check(col, prog, tier, profile, fixture=None):
     col.rule("Q3", "crt: egcd(m1, -m2, a2-a1); x reduced as ((x % k) + k) % k, k = m2/g; result m1*x + a1", floor=3)
 
     # ---------------- Q1
-    I = util.analyse(egcd)
+    I = Af(egcd)
     a, b, c = (("param", i, I.names.get(i)) for i in (1, 2, 3))
     nsome = 0
     for st in I.final_states:
@@ -145,7 +147,7 @@ def check(col, prog, tier, profile, fixture=None):
         col.violation("Q1", "%s|paths" % fk(egcd), egcd.loc(), "expected a base and a recursive Some-returning path in egcd")
 
     # ---------------- Q2
-    I = util.analyse(gcd)
+    I = Af(gcd)
     pa, pb = ("param", 1, I.names.get(1)), ("param", 2, I.names.get(2))
     absd = {}
     loop_ok = True
@@ -175,7 +177,7 @@ def check(col, prog, tier, profile, fixture=None):
         col.ok("Q2", gcd.loc(), key, "loop body is `a %= b; swap(a, b)` on the absolute values; returns the loop variable")
     else:
         col.violation("Q2", key, gcd.loc(), "gcd's loop is not the remainder/swap loop over the absolute values")
-    I = util.analyse(lcm)
+    I = Af(lcm)
     for st in I.final_states:
         ret = util.ret_term(st)
         ok = ret[0] == "call" and str(ret[1]).endswith("Mul::mul")
@@ -197,8 +199,7 @@ def check(col, prog, tier, profile, fixture=None):
             col.violation("Q2", key, lcm.loc(), "lcm is not (|a| / gcd(a,b)) * |b| with the division first: sign or overflow behaviour changes (%s)" % tstr(ret))
 
     # ---------------- Q3
-    free = [f for f in crate.bodies if not f.is_closure and f.kind == "Fn" and f.container is None and f.vis != "pub" and not util.self_recursive(f)]
-    I = util.analyser(free)(crt)
+    I = Af(crt)
     a1, m1, a2, m2 = (("param", i, I.names.get(i)) for i in (1, 2, 3, 4))
     for st in I.final_states:
         ret = util.ret_term(st)
